@@ -89,7 +89,22 @@ FamL(x, kk) == Pair(LeftSpine(x, kk), x)
 RECURSIVE Rep(_, _)
 Rep(x, m) == IF m = 0 THEN Nil ELSE Pair(Pair(x, Atom(<< 1 >>)), Rep(x, m - 1))
 
+\* shapes whose serialization refers to the parse stack *itself* (path 1 and other tails of the
+\* stack list) more than once, around a cons: (X X) with X a list, lists of identical sub-lists,
+\* (L . L), and the list-doubling T(n+1) = (T(n) T(n))
+L2(x, y) == Pair(x, Pair(y, Nil))
+RECURSIVE ListDouble(_, _)
+ListDouble(x, n) == IF n = 0 THEN x ELSE L2(ListDouble(x, n - 1), ListDouble(x, n - 1))
+RECURSIVE RepSub(_, _)
+RepSub(x, m) == IF m = 0 THEN Nil ELSE Pair(x, RepSub(x, m - 1))
+StackShapes ==
+  {ListDouble(x, n) : x \in {B3, Pair(B3, Nil), L2(B3, Atom(<< 1 >>))}, n \in 1..3}
+    \cup {RepSub(x, m) : x \in {Pair(B3, Nil), L2(B3, B3), L2(B3, Atom(<< 1 >>))}, m \in 2..4}
+    \cup {Pair(x, x) : x \in {L2(B3, B3), L2(B3, Atom(<< 1 >>)), RepSub(Pair(B3, Nil), 2)}}
+    \cup {L2(L2(B3, B4), L2(B3, B4)), Pair(L2(B3, B3), L2(L2(B3, B3), B3))}
+
 Families ==
+  StackShapes \cup
   {FamR(B3, kk) : kk \in {5, 6, 14, 15}} \cup {FamL(B3, kk) : kk \in {5, 6, 14, 15}}
     \cup {FamR(B4, kk) : kk \in {22, 23}} \cup {FamL(B4, kk) : kk \in {22, 23}}
     \cup {Rep(B3, m) : m \in 2..4}
